@@ -221,18 +221,20 @@ Definition vturn (a : val) (pen : Z) (pt : zp) : val :=
    p1/p2 the two perpendicular states, mk builds the point from the coordinate along the line. *)
 Section Sweep.
   Variables (get : cell -> val) (set : cell -> val -> cell) (p1 p2 : cell -> val) (mk : Z -> zp) (pen : Z)
-            (blocked : Z -> Z -> bool) (nt : zp -> bool).
+            (blocked : Z -> Z -> bool) (nt ni no : zp -> bool).
   Fixpoint sweep (carry : val) (prev : Z) (first : bool) (line : list (Z * cell)) : list (Z * cell) :=
     match line with
     | [] => []
     | (x, c) :: t =>
-        let incoming := if first then None else if blocked prev x then None else vadd carry (Z.abs (x - prev)) in
+        (* ni = no move INTO this point (the source: a path never comes back to its own source), no = no move OUT of it (the
+           destination: a path ends when it reaches it) *)
+        let incoming := if first then None else if blocked prev x then None else if ni (mk x) then None else vadd carry (Z.abs (x - prev)) in
         (* no turn where nt holds.  The search uses nt = [noturn src dst]: no turn at the destination itself (a state
            (dst, d) always means "arrived travelling d") and none at the source (a state (src, d) means "about to leave
            travelling d": the first segment must leave in an allowed direction, a connector never turns on its own end) *)
         let turnin := if nt (mk x) then None else vturn (vmin (p1 c) (p2 c)) pen (mk x) in
         let v := vmin (vmin (get c) incoming) turnin in
-        (x, set c v) :: sweep v x false t
+        (x, set c v) :: sweep (if no (mk x) then None else v) x false t
     end.
 End Sweep.
 
@@ -244,11 +246,11 @@ Definition setW c v := mkcell (cN c) (cE c) (cS c) v.
 (* grid = list of rows (y, list of (x, cell)) *)
 Definition grid := list (Z * list (Z * cell)).
 
-Definition sweep_rows (rs : list rect) (pen : Z) (dst : zp -> bool) (g : grid) : grid :=
+Definition sweep_rows (rs : list rect) (pen : Z) (dst ni no : zp -> bool) (g : grid) : grid :=
   map (fun row => let '(y, l) := row in
     let blk := fun a b => hblocked rs (Z.min a b) (Z.max a b) y in
-    let l1 := sweep cE setE cN cS (fun x => (x, y)) pen blk dst None 0 true l in
-    let l2 := rev (sweep cW setW cN cS (fun x => (x, y)) pen blk dst None 0 true (rev l1)) in
+    let l1 := sweep cE setE cN cS (fun x => (x, y)) pen blk dst ni no None 0 true l in
+    let l2 := rev (sweep cW setW cN cS (fun x => (x, y)) pen blk dst ni no None 0 true (rev l1)) in
     (y, l2)) g.
 
 Fixpoint transpose_aux (xs : list Z) (g : grid) : grid :=
@@ -265,16 +267,16 @@ Definition transpose (g : grid) : grid :=
   | (_, l) :: _ => transpose_aux (map fst l) g
   end.
 
-Definition sweep_cols (rs : list rect) (pen : Z) (dst : zp -> bool) (g : grid) : grid :=
+Definition sweep_cols (rs : list rect) (pen : Z) (dst ni no : zp -> bool) (g : grid) : grid :=
   (* g is in column form: (x, list of (y, cell)) *)
   map (fun col => let '(x, l) := col in
     let blk := fun a b => vblocked rs (Z.min a b) (Z.max a b) x in
-    let l1 := sweep cS setS cE cW (fun y => (x, y)) pen blk dst None 0 true l in
-    let l2 := rev (sweep cN setN cE cW (fun y => (x, y)) pen blk dst None 0 true (rev l1)) in
+    let l1 := sweep cS setS cE cW (fun y => (x, y)) pen blk dst ni no None 0 true l in
+    let l2 := rev (sweep cN setN cE cW (fun y => (x, y)) pen blk dst ni no None 0 true (rev l1)) in
     (x, l2)) g.
 
-Definition round (rs : list rect) (pen : Z) (dst : zp -> bool) (g : grid) : grid :=
-  transpose (sweep_cols rs pen dst (transpose (sweep_rows rs pen dst g))).
+Definition round (rs : list rect) (pen : Z) (dst ni no : zp -> bool) (g : grid) : grid :=
+  transpose (sweep_cols rs pen dst ni no (transpose (sweep_rows rs pen dst ni no g))).
 
 Definition signature (g : grid) : list Z :=
   flat_map (fun row => flat_map (fun xc => let c := snd xc in [vcost (cN c); vcost (cE c); vcost (cS c); vcost (cW c)]) (snd row)) g.
@@ -285,11 +287,11 @@ Fixpoint zlist_eqb (a b : list Z) : bool :=
   | _, _ => false
   end.
 
-Fixpoint iterate (fuel : nat) (rs : list rect) (pen : Z) (dst : zp -> bool) (g : grid) : option grid :=
+Fixpoint iterate (fuel : nat) (rs : list rect) (pen : Z) (dst ni no : zp -> bool) (g : grid) : option grid :=
   match fuel with
   | O => None
-  | S n => let g' := round rs pen dst g in
-           if zlist_eqb (signature g) (signature g') then Some g' else iterate n rs pen dst g'
+  | S n => let g' := round rs pen dst ni no g in
+           if zlist_eqb (signature g) (signature g') then Some g' else iterate n rs pen dst ni no g'
   end.
 
 Definition init_grid (xs ys : list Z) (src : zp) (sd : Z) : grid :=
@@ -315,7 +317,7 @@ Definition noturn (src dst : zp) (p : zp) : bool := zp_eqb p dst || zp_eqb p src
 Definition search (rs : list rect) (src dst : zp) (pen sd ad : Z) (fuel : nat) : option (option (Z * list zp)) :=
   let xs := hanan_xs rs src dst in
   let ys := hanan_ys rs src dst in
-  match iterate fuel rs pen (noturn src dst) (init_grid xs ys src sd) with
+  match iterate fuel rs pen (noturn src dst) (fun p => zp_eqb p src) (fun p => zp_eqb p dst) (init_grid xs ys src sd) with
   | None => None
   | Some g =>
       match lookup g dst with
